@@ -1584,8 +1584,10 @@ def _ref_cond(node: ast.AST, where) -> str:
     src = ast.unparse(node)
     if src in ('child.is_null', 'child is NULL'):
         return 'CNull'
-    if src in ('child.is_stub', 'isinstance(child, StubElement)'):
+    if src == 'child.is_stub':
         return 'CStub'
+    if src == 'isinstance(child, StubElement)':      # NULL is a StubElement too (is_stub is false for it)
+        return '(COr CStub CNull)'
     if src == 'child.uuid in roots':
         return 'CRoot'
     if src == 'child.uuid not in roots':
@@ -1757,12 +1759,14 @@ def _kv2_roots(fn: ast.FunctionDef) -> dict:
         _fail('export_kv2: `for subelem in attr.iter_elem()` not found in the counting loop', stmts[0])
     sb = list(sub.body)
     out['skip_stubs'] = False
-    stub_tests = ('isinstance(subelem, StubElement)', 'subelem.is_stub')
+    # NULL is a StubElement whose is_stub is false: `subelem.is_stub` alone would count NULL as an element
+    stub_tests = ('isinstance(subelem, StubElement)', 'subelem.is_stub or subelem.is_null', 'subelem.is_null or subelem.is_stub',
+                  'subelem.is_stub or subelem is NULL', 'subelem is NULL or subelem.is_stub')
     if sb and isinstance(sb[0], ast.If) and ast.unparse(sb[0].test) in stub_tests and not sb[0].orelse \
             and len(sb[0].body) == 1 and isinstance(sb[0].body[0], ast.Continue):
         out['skip_stubs'] = True
         sb = sb[1:]
-    elif len(sb) == 1 and isinstance(sb[0], ast.If) and ast.unparse(sb[0].test) in tuple('not ' + t for t in stub_tests) and not sb[0].orelse:
+    elif len(sb) == 1 and isinstance(sb[0], ast.If) and ast.unparse(sb[0].test) in tuple(f'not {t}' if ' or ' not in t else f'not ({t})' for t in stub_tests) and not sb[0].orelse:
         out['skip_stubs'] = True
         sb = list(sb[0].body)
     if not (len(sb) == 1 and isinstance(sb[0], ast.If) and sb[0].orelse):
